@@ -54,6 +54,53 @@ func tagged(i int, rest string) func([]string) string {
 func one(err error) []error { return []error{err} }
 func lit(s string) string   { return fmt.Sprintf("{%d}\r\n%s", len(s), s) }
 
+// concStep: g goroutines issue k NOOPs each, one after the other; the server answers every command as it
+// arrives.  The errors are returned in the order in which the commands were submitted (= written).
+func concStep(g, k int) step {
+	n := g * k
+	st := step{ncmds: n}
+	for i := 0; i < n; i++ {
+		i := i
+		st.segs = append(st.segs, seg{i + 1, func(t []string) string { return t[i] + " OK noop\r\n" }})
+		st.ends = append(st.ends, i)
+	}
+	st.call = func(cl *imapclient.Client) []error {
+		errs := make([]error, n)
+		var mu sync.Mutex
+		next := 0
+		var wg sync.WaitGroup
+		for j := 0; j < g; j++ {
+			wg.Add(1)
+			go func() {
+				defer wg.Done()
+				for x := 0; x < k; x++ {
+					mu.Lock()
+					idx := next
+					next++
+					cmd := cl.Noop() // submission order = order on the wire (held across the call)
+					mu.Unlock()
+					errs[idx] = cmd.Wait()
+					if errs[idx] != nil {
+						// the connection is gone: the remaining calls of this goroutine still have to return
+						for y := x + 1; y < k; y++ {
+							mu.Lock()
+							idx := next
+							next++
+							cmd := cl.Noop()
+							mu.Unlock()
+							errs[idx] = cmd.Wait()
+						}
+						return
+					}
+				}
+			}()
+		}
+		wg.Wait()
+		return errs
+	}
+	return st
+}
+
 var seq12 = func() imap.SeqSet { var s imap.SeqSet; s.AddRange(1, 2); return s }()
 
 var scripts = map[string][]step{
@@ -205,6 +252,14 @@ var scripts = map[string][]step{
 			_, errB := b.Collect()
 			return []error{errA, errB}
 		}, []seg{{2, fixed("* 1 FETCH (FLAGS ())\r\n")}, {2, tagged(0, "OK a")}, {2, fixed("* LIST () \"/\" a\r\n")}, {2, tagged(1, "OK b")}}, []int{1, 3}},
+	},
+	// two goroutines use the client at the same time (as its documentation allows) while the fault strikes:
+	// every one of their calls has to return as well
+	"conc": {
+		{1, func(cl *imapclient.Client) []error { return one(cl.Login("u", "p").Wait()) },
+			[]seg{{1, tagged(0, "OK [CAPABILITY IMAP4rev1] in")}}, []int{0}},
+		concStep(2, 5),
+		concStep(3, 4),
 	},
 	// the extension commands, each with its own data response
 	"ext": {
